@@ -83,6 +83,10 @@ def r2(chk, prog):
               'loop from %s while %s %s' % (start, c0.get('op'), bound))
     h = loop_header(cfg, loop)
     body = cfg.succ[h][0]
+    bypass = cfg.can_reach_exit(cfg.entry_pos(), lambda pos, e: pos[0] == h)
+    chk.check(not bypass, 'R2', f.name, 'the two passes are always executed (no early return from print())',
+              f.loc(loop), 'a path returns from print() before the mandatory/optional passes: visible arguments '
+              'would not be listed at all')
     ids = {c['id'] for c in pa}
     cnt = path_counts(cfg, body, [b for b in cfg.blocks if h in cfg.succs(b) and b != cfg.pred[h][0]][0]
                       if False else h, lambda b: sum(1 for e in cfg.elems(b) if isinstance(e, int) and e in ids))
